@@ -196,3 +196,9 @@ def take_periods(prop, tier, seed):
                   'grids of 3-7 steps', 40 if tier == 'quick' else 200)
     b['failures'] = [f for f in b['failures'] if f['name'].startswith(prop) or f.get('error')]
     return dict(bounded=b)
+
+
+@provider('C08')
+def coarse_beyond(prop, tier, seed):
+    return dict(bounded=run_cases(sc.check_coarse_beyond_horizon, [dict(freq='d', days_beyond=2), dict(freq='4h', days_beyond=1)],
+                                  'coarse-frequency asset whose window ends after the horizon', '2 cases', 10))
